@@ -529,13 +529,18 @@ Fixpoint resource_labels (i : N) (rs : list labels) : labels :=
   end.
 Definition ddseries_labels (s : ddseries) : labels :=
   (match dm_metric s with Some m => [("__name__"%string, m)] | None => [] end) ++ resource_labels 0%N (dm_resources s).
-(* (nanoseconds, bits) of every point of the series, now = the clock reading of its points array *)
-Definition dm_all (now : Z) (s : ddseries) : list (Z * N) :=
-  map (fun v => (now, v)) (dm_stamped s) ++ map (fun p => (wrap64 (fst p * 1000000000), snd p)) (dm_points s).
+(* (nanoseconds, bits) of every point of the series; the clock readings are aligned with the ROWS (one per point, used by the
+   stamped ones only): the points of one array share one reading in the code, here each stamped point has its own *)
+Definition dm_all (nows : list Z) (s : ddseries) : list (Z * N) :=
+  clocked nows (dm_stamped s) ++ map (fun p => (wrap64 (fst p * 1000000000), snd p)) (dm_points s).
+Fixpoint ddmet_rows (nows : list Z) (body : list ddseries) : list (ddseries * list (Z * N)) :=
+  match body with
+  | [] => []
+  | s :: r => (s, dm_all nows s) :: ddmet_rows (skipn (List.length (dm_stamped s) + List.length (dm_points s)) nows) r
+  end.
 Definition calls_ddmet (ck : clock) (body : list ddseries) : list call :=
-  map (fun p => K (ddseries_labels (snd p)) (map fst (dm_all (fst p) (snd p)))
-                  (repeat EmptyString (List.length (dm_all (fst p) (snd p)))) (map snd (dm_all (fst p) (snd p)))
-                  (fast_fill 0%N (List.length (dm_all (fst p) (snd p))) TYPE_METRIC)) (clocked (ck_nows ck) body).
+  map (fun p => K (ddseries_labels (fst p)) (map fst (snd p)) (repeat EmptyString (List.length (snd p))) (map snd (snd p))
+                  (fast_fill 0%N (List.length (snd p)) TYPE_METRIC)) (ddmet_rows (ck_nows ck) body).
 
 (* ---------------------------------------------------------------- OTLP logs: otlplogs.go *)
 (* attribute values and the body of a record are any-value trees: model/AnyValue.v (shared with property C04, which owns
@@ -705,8 +710,7 @@ Fixpoint es_entry_lines (before : list esline) (body : list esline) : list (labe
 Definition entries_es (ck : clock) (body : list esline) : list entry :=
   map (fun p => E (fst (snd p)) (fst p) (snd (snd p)) 0%N TYPE_LOG) (clocked (ck_nows ck) (es_entry_lines [] body)).
 Definition entries_ddmet (ck : clock) (body : list ddseries) : list entry :=
-  flat_map (fun p => map (fun q => E (ddseries_labels (snd p)) (fst q) EmptyString (snd q) TYPE_METRIC) (dm_all (fst p) (snd p)))
-           (clocked (ck_nows ck) body).
+  flat_map (fun p => map (fun q => E (ddseries_labels (fst p)) (fst q) EmptyString (snd q) TYPE_METRIC) (snd p)) (ddmet_rows (ck_nows ck) body).
 Definition entries_otlp (body : list oreslog) : list entry :=
   flat_map (fun rl => flat_map (fun sl =>
     map (fun r => E (orecord_labels (add_attrs [] (if orl_has rl then orl_attrs rl else []))
